@@ -410,3 +410,70 @@ Proof.
   split; [exact EA|]. split; [exact EB|].
   rewrite Rt. apply Rmax_lipschitz; assumption.
 Qed.
+
+(* progress of the legacy last tick:  (time - final_span_start) / dur, mirrored
+   (1 - ..) when the span count is even; exact value X = (T - FS) / dur with
+   T = max(start + n*dur/2, start + n*dur - 36), FS = start + (n-1)*dur *)
+Theorem last_tick_progress_error (start dur : F64) (n : Z) :
+  (Z.abs n < 2 ^ 53)%Z -> (Z.abs (n - 1) < 2 ^ 53)%Z -> 0 < B2R dur ->
+  let total := D.mul (D.of_Z n) dur in
+  let half := D.div total (D.of_Z 2) in
+  let a := D.add start half in
+  let fsst := sp_sst ops64 start dur (n - 1) in
+  let send := D.add fsst dur in
+  let b := D.add send (c_tail_leniency ops64) in
+  let ea := / 2 * ulp64 (B2R total) + / 2 * ulp64 (B2R half) + / 2 * ulp64 (B2R a) in
+  let eb := / 2 * ulp64 (B2R (D.mul (D.of_Z (n - 1)) dur)) + / 2 * ulp64 (B2R fsst)
+            + / 2 * ulp64 (B2R send) + / 2 * ulp64 (B2R b) in
+  let efs := / 2 * ulp64 (B2R (D.mul (D.of_Z (n - 1)) dur)) + / 2 * ulp64 (B2R fsst) in
+  fin a -> fin b ->
+  let e := sp_last_tick ops64 start dur n in
+  let diff := D.sub (ev_time e) fsst in
+  let q := D.div diff dur in
+  fin (ev_prog e) ->
+  let T := Rmax (B2R start + IZR n * B2R dur / 2) (B2R start + IZR n * B2R dur - 36) in
+  let FS := B2R start + IZR (n - 1) * B2R dur in
+  let X := (T - FS) / B2R dur in
+  Rabs (B2R (ev_prog e) - (if Z.even n then 1 - X else X))
+    <= (Rmax ea eb + efs + / 2 * ulp64 (B2R diff)) / B2R dur + / 2 * ulp64 (B2R q)
+       + (if Z.even n then / 2 * ulp64 (B2R (ev_prog e)) else 0).
+Proof.
+  intros Hn Hn1 Hdur total half a fsst send b ea eb efs Fa Fb e diff q Fp T FS X.
+  destruct (last_tick_time_error start dur n Hn Hn1 Fa Fb) as (Ft & _ & _ & _ & Et).
+  fold total half a fsst send b ea eb in Et. cbn zeta in Et. fold e T in Et.
+  assert (Eprog : ev_prog e = if Z.even n then D.sub (D.of_Z 1) q else q) by reflexivity.
+  destruct one_R as (R1 & F1).
+  assert (Fq : fin q).
+  { rewrite Eprog in Fp. destruct (Z.even n); [apply (fin_sub_inv _ _ Fp) | exact Fp]. }
+  assert (Fdur : fin dur).
+  { destruct dur as [s|s| |s m ex Hb]; try reflexivity; cbn in Hdur; lra. }
+  assert (Fdiff : fin diff) by (apply (fin_div_inv diff dur Fdur); [lra | exact Fq]).
+  destruct (fin_sub_inv _ _ Fdiff) as (_ & Ffs).
+  pose proof (span_start_error start dur (n - 1) Hn1 Ffs) as Efs. cbn zeta in Efs.
+  fold fsst efs FS in Efs.
+  assert (Ed : Rabs (B2R diff - (T - FS)) <= Rmax ea eb + efs + / 2 * ulp64 (B2R diff)).
+  { replace (B2R diff - (T - FS))
+      with ((B2R diff - (B2R (ev_time e) - B2R fsst)) + (B2R (ev_time e) - T) - (B2R fsst - FS)) by ring.
+    assert (E1 : Rabs (B2R diff - (B2R (ev_time e) - B2R fsst)) <= / 2 * ulp64 (B2R diff)).
+    { pose proof (sub_R _ _ Ft Ffs Fdiff) as Hs. change (B2R diff = RN (B2R (ev_time e) - B2R fsst)) in Hs.
+      rewrite Hs. apply RN_err. }
+    eapply Rle_trans; [apply Rabs_triang|]. rewrite Rabs_Ropp.
+    eapply Rle_trans; [apply Rplus_le_compat_r; apply Rabs_triang|]. lra. }
+  assert (Eq : Rabs (B2R q - X) <= (Rmax ea eb + efs + / 2 * ulp64 (B2R diff)) / B2R dur + / 2 * ulp64 (B2R q)).
+  { replace (B2R q - X) with ((B2R q - B2R diff / B2R dur) + (B2R diff - (T - FS)) / B2R dur)
+      by (unfold X; field; lra).
+    assert (E2 : Rabs (B2R q - B2R diff / B2R dur) <= / 2 * ulp64 (B2R q)).
+    { unfold q. rewrite (div_R diff dur) by (auto; lra). apply RN_err. }
+    assert (E3 : Rabs ((B2R diff - (T - FS)) / B2R dur)
+                 <= (Rmax ea eb + efs + / 2 * ulp64 (B2R diff)) / B2R dur).
+    { unfold Rdiv. rewrite Rabs_mult, (Rabs_pos_eq (/ B2R dur)) by (left; apply Rinv_0_lt_compat; exact Hdur).
+      apply Rmult_le_compat_r; [left; apply Rinv_0_lt_compat; exact Hdur | exact Ed]. }
+    eapply Rle_trans; [apply Rabs_triang|]. lra. }
+  rewrite Eprog in *. destruct (Z.even n).
+  - replace (B2R (D.sub (D.of_Z 1) q) - (1 - X))
+      with ((B2R (D.sub (D.of_Z 1) q) - (1 - B2R q)) - (B2R q - X)) by ring.
+    assert (E4 : Rabs (B2R (D.sub (D.of_Z 1) q) - (1 - B2R q)) <= / 2 * ulp64 (B2R (D.sub (D.of_Z 1) q))).
+    { rewrite (sub_R _ _ F1 Fq Fp), R1. apply RN_err. }
+    eapply Rle_trans; [apply Rabs_triang|]. rewrite Rabs_Ropp. lra.
+  - lra.
+Qed.
